@@ -25,7 +25,9 @@ def runsB : List Nat → Bool
 
 theorem runs_of_B : ∀ (l : List Nat), runsB l = true → Runs l
   | [], _ => trivial
-  | [x], h => by simpa [runsB] using h
+  | [x], h => by
+    simp only [runsB, decide_eq_true_eq] at h
+    exact h
   | x :: y :: rest, h => by
     simp only [runsB, Bool.and_eq_true, Bool.or_eq_true, decide_eq_true_eq] at h
     exact ⟨h.1.1, h.1.2, runs_of_B (y :: rest) h.2⟩
@@ -73,19 +75,45 @@ theorem J_sym (c : Dec) (hj : J c) (tbl : List Nat) (ht : Runs tbl) : J (sym c t
 
 /-! ### The tables -/
 
-def allRuns : Bool :=
-  [silk_type_offset_VAD_iCDF, silk_type_offset_no_VAD_iCDF, silk_delta_gain_iCDF, silk_uniform3_iCDF, silk_uniform4_iCDF,
-   silk_uniform5_iCDF, silk_uniform6_iCDF, silk_uniform8_iCDF, silk_NLSF_EXT_iCDF, silk_NLSF_interpolation_factor_iCDF,
-   silk_pitch_delta_iCDF, silk_pitch_lag_iCDF, silk_pitch_contour_iCDF, silk_pitch_contour_NB_iCDF,
-   silk_pitch_contour_10_ms_iCDF, silk_pitch_contour_10_ms_NB_iCDF, silk_LTP_per_index_iCDF, silk_LTP_gain_iCDF_0,
-   silk_LTP_gain_iCDF_1, silk_LTP_gain_iCDF_2, silk_LTPscale_iCDF, silk_lsb_iCDF, silk_stereo_pred_joint_iCDF,
-   silk_stereo_only_code_mid_iCDF, silk_LBRR_flags_2_iCDF, silk_LBRR_flags_3_iCDF, silk_shell_code_table0,
-   silk_shell_code_table1, silk_shell_code_table2, silk_shell_code_table3, silk_NLSF_CB1_iCDF_NB_MB,
-   silk_NLSF_CB2_iCDF_NB_MB, silk_NLSF_CB1_iCDF_WB, silk_NLSF_CB2_iCDF_WB].all runsB &&
-  silk_gain_iCDF.all runsB && silk_rate_levels_iCDF.all runsB && silk_pulses_per_block_iCDF.all runsB &&
-  silk_sign_iCDF.all (fun x => decide (x < 256))
+theorem rr_silk_type_offset_VAD_iCDF : Runs silk_type_offset_VAD_iCDF := runs_of_B _ (by decide +kernel)
+theorem rr_silk_type_offset_no_VAD_iCDF : Runs silk_type_offset_no_VAD_iCDF := runs_of_B _ (by decide +kernel)
+theorem rr_silk_delta_gain_iCDF : Runs silk_delta_gain_iCDF := runs_of_B _ (by decide +kernel)
+theorem rr_silk_uniform3_iCDF : Runs silk_uniform3_iCDF := runs_of_B _ (by decide +kernel)
+theorem rr_silk_uniform4_iCDF : Runs silk_uniform4_iCDF := runs_of_B _ (by decide +kernel)
+theorem rr_silk_uniform5_iCDF : Runs silk_uniform5_iCDF := runs_of_B _ (by decide +kernel)
+theorem rr_silk_uniform6_iCDF : Runs silk_uniform6_iCDF := runs_of_B _ (by decide +kernel)
+theorem rr_silk_uniform8_iCDF : Runs silk_uniform8_iCDF := runs_of_B _ (by decide +kernel)
+theorem rr_silk_NLSF_EXT_iCDF : Runs silk_NLSF_EXT_iCDF := runs_of_B _ (by decide +kernel)
+theorem rr_silk_NLSF_interpolation_factor_iCDF : Runs silk_NLSF_interpolation_factor_iCDF := runs_of_B _ (by decide +kernel)
+theorem rr_silk_pitch_delta_iCDF : Runs silk_pitch_delta_iCDF := runs_of_B _ (by decide +kernel)
+theorem rr_silk_pitch_lag_iCDF : Runs silk_pitch_lag_iCDF := runs_of_B _ (by decide +kernel)
+theorem rr_silk_pitch_contour_iCDF : Runs silk_pitch_contour_iCDF := runs_of_B _ (by decide +kernel)
+theorem rr_silk_pitch_contour_NB_iCDF : Runs silk_pitch_contour_NB_iCDF := runs_of_B _ (by decide +kernel)
+theorem rr_silk_pitch_contour_10_ms_iCDF : Runs silk_pitch_contour_10_ms_iCDF := runs_of_B _ (by decide +kernel)
+theorem rr_silk_pitch_contour_10_ms_NB_iCDF : Runs silk_pitch_contour_10_ms_NB_iCDF := runs_of_B _ (by decide +kernel)
+theorem rr_silk_LTP_per_index_iCDF : Runs silk_LTP_per_index_iCDF := runs_of_B _ (by decide +kernel)
+theorem rr_silk_LTP_gain_iCDF_0 : Runs silk_LTP_gain_iCDF_0 := runs_of_B _ (by decide +kernel)
+theorem rr_silk_LTP_gain_iCDF_1 : Runs silk_LTP_gain_iCDF_1 := runs_of_B _ (by decide +kernel)
+theorem rr_silk_LTP_gain_iCDF_2 : Runs silk_LTP_gain_iCDF_2 := runs_of_B _ (by decide +kernel)
+theorem rr_silk_LTPscale_iCDF : Runs silk_LTPscale_iCDF := runs_of_B _ (by decide +kernel)
+theorem rr_silk_lsb_iCDF : Runs silk_lsb_iCDF := runs_of_B _ (by decide +kernel)
+theorem rr_silk_stereo_pred_joint_iCDF : Runs silk_stereo_pred_joint_iCDF := runs_of_B _ (by decide +kernel)
+theorem rr_silk_stereo_only_code_mid_iCDF : Runs silk_stereo_only_code_mid_iCDF := runs_of_B _ (by decide +kernel)
+theorem rr_silk_LBRR_flags_2_iCDF : Runs silk_LBRR_flags_2_iCDF := runs_of_B _ (by decide +kernel)
+theorem rr_silk_LBRR_flags_3_iCDF : Runs silk_LBRR_flags_3_iCDF := runs_of_B _ (by decide +kernel)
+theorem rr_silk_shell_code_table0 : Runs silk_shell_code_table0 := runs_of_B _ (by decide +kernel)
+theorem rr_silk_shell_code_table1 : Runs silk_shell_code_table1 := runs_of_B _ (by decide +kernel)
+theorem rr_silk_shell_code_table2 : Runs silk_shell_code_table2 := runs_of_B _ (by decide +kernel)
+theorem rr_silk_shell_code_table3 : Runs silk_shell_code_table3 := runs_of_B _ (by decide +kernel)
+theorem rr_silk_NLSF_CB1_iCDF_NB_MB : Runs silk_NLSF_CB1_iCDF_NB_MB := runs_of_B _ (by decide +kernel)
+theorem rr_silk_NLSF_CB2_iCDF_NB_MB : Runs silk_NLSF_CB2_iCDF_NB_MB := runs_of_B _ (by decide +kernel)
+theorem rr_silk_NLSF_CB1_iCDF_WB : Runs silk_NLSF_CB1_iCDF_WB := runs_of_B _ (by decide +kernel)
+theorem rr_silk_NLSF_CB2_iCDF_WB : Runs silk_NLSF_CB2_iCDF_WB := runs_of_B _ (by decide +kernel)
 
-theorem allRuns_true : allRuns = true := by decide +kernel
+theorem rows_gain : silk_gain_iCDF.all runsB = true := by decide +kernel
+theorem rows_rate : silk_rate_levels_iCDF.all runsB = true := by decide +kernel
+theorem rows_ppb : silk_pulses_per_block_iCDF.all runsB = true := by decide +kernel
+theorem sign_bytes : silk_sign_iCDF.all (fun x => decide (x < 256)) = true := by decide +kernel
 
 theorem runs_of_mem {T : List Nat} {L : List (List Nat)} (h : L.all runsB = true) (hm : T ∈ L) : Runs T := by
   rw [List.all_eq_true] at h
@@ -97,44 +125,27 @@ theorem runs_getD {L : List (List Nat)} (h : L.all runsB = true) (i : Nat) : Run
   | none => trivial
   | some v => exact runs_of_mem h (List.mem_of_getElem? hq)
 
-/-- Membership in the big list of `allRuns`. -/
-theorem base_runs : ∀ T ∈ [silk_type_offset_VAD_iCDF, silk_type_offset_no_VAD_iCDF, silk_delta_gain_iCDF, silk_uniform3_iCDF, silk_uniform4_iCDF,
-   silk_uniform5_iCDF, silk_uniform6_iCDF, silk_uniform8_iCDF, silk_NLSF_EXT_iCDF, silk_NLSF_interpolation_factor_iCDF,
-   silk_pitch_delta_iCDF, silk_pitch_lag_iCDF, silk_pitch_contour_iCDF, silk_pitch_contour_NB_iCDF,
-   silk_pitch_contour_10_ms_iCDF, silk_pitch_contour_10_ms_NB_iCDF, silk_LTP_per_index_iCDF, silk_LTP_gain_iCDF_0,
-   silk_LTP_gain_iCDF_1, silk_LTP_gain_iCDF_2, silk_LTPscale_iCDF, silk_lsb_iCDF, silk_stereo_pred_joint_iCDF,
-   silk_stereo_only_code_mid_iCDF, silk_LBRR_flags_2_iCDF, silk_LBRR_flags_3_iCDF, silk_shell_code_table0,
-   silk_shell_code_table1, silk_shell_code_table2, silk_shell_code_table3, silk_NLSF_CB1_iCDF_NB_MB,
-   silk_NLSF_CB2_iCDF_NB_MB, silk_NLSF_CB1_iCDF_WB, silk_NLSF_CB2_iCDF_WB], Runs T := by
-  have h := allRuns_true
-  simp only [allRuns, Bool.and_eq_true] at h
-  intro T hT
-  exact runs_of_mem h.1.1.1.1 hT
-
-theorem rows_runs : silk_gain_iCDF.all runsB = true ∧ silk_rate_levels_iCDF.all runsB = true ∧
-    silk_pulses_per_block_iCDF.all runsB = true ∧ silk_sign_iCDF.all (fun x => decide (x < 256)) = true := by
-  have h := allRuns_true
-  simp only [allRuns, Bool.and_eq_true] at h
-  exact ⟨h.1.1.1.2, h.1.1.2, h.1.2, h.2⟩
-
-theorem R (T : List Nat) (h : T ∈ [silk_type_offset_VAD_iCDF, silk_type_offset_no_VAD_iCDF, silk_delta_gain_iCDF, silk_uniform3_iCDF, silk_uniform4_iCDF,
-   silk_uniform5_iCDF, silk_uniform6_iCDF, silk_uniform8_iCDF, silk_NLSF_EXT_iCDF, silk_NLSF_interpolation_factor_iCDF,
-   silk_pitch_delta_iCDF, silk_pitch_lag_iCDF, silk_pitch_contour_iCDF, silk_pitch_contour_NB_iCDF,
-   silk_pitch_contour_10_ms_iCDF, silk_pitch_contour_10_ms_NB_iCDF, silk_LTP_per_index_iCDF, silk_LTP_gain_iCDF_0,
-   silk_LTP_gain_iCDF_1, silk_LTP_gain_iCDF_2, silk_LTPscale_iCDF, silk_lsb_iCDF, silk_stereo_pred_joint_iCDF,
-   silk_stereo_only_code_mid_iCDF, silk_LBRR_flags_2_iCDF, silk_LBRR_flags_3_iCDF, silk_shell_code_table0,
-   silk_shell_code_table1, silk_shell_code_table2, silk_shell_code_table3, silk_NLSF_CB1_iCDF_NB_MB,
-   silk_NLSF_CB2_iCDF_NB_MB, silk_NLSF_CB1_iCDF_WB, silk_NLSF_CB2_iCDF_WB]) : Runs T := base_runs T h
-
 theorem runs_cb (rate : Rate) : Runs (nlsfCB rate).cb1 ∧ Runs (nlsfCB rate).ecIcdf := by
-  cases rate <;> exact ⟨R _ (by simp [nlsfCB, cbNbMb, cbWb]), R _ (by simp [nlsfCB, cbNbMb, cbWb])⟩
+  cases rate
+  · exact ⟨rr_silk_NLSF_CB1_iCDF_NB_MB, rr_silk_NLSF_CB2_iCDF_NB_MB⟩
+  · exact ⟨rr_silk_NLSF_CB1_iCDF_NB_MB, rr_silk_NLSF_CB2_iCDF_NB_MB⟩
+  · exact ⟨rr_silk_NLSF_CB1_iCDF_WB, rr_silk_NLSF_CB2_iCDF_WB⟩
 
 theorem runs_pitchLow (rate : Rate) : Runs (pitchLagLowBits rate) := by
-  cases rate <;> exact R _ (by simp [pitchLagLowBits])
+  cases rate
+  · exact rr_silk_uniform4_iCDF
+  · exact rr_silk_uniform6_iCDF
+  · exact rr_silk_uniform8_iCDF
 
 theorem runs_contour (rate : Rate) (nb : Nat) : Runs (pitchContour rate nb) := by
   unfold pitchContour
-  split <;> split <;> exact R _ (by simp)
+  split
+  · split
+    · exact rr_silk_pitch_contour_NB_iCDF
+    · exact rr_silk_pitch_contour_10_ms_NB_iCDF
+  · split
+    · exact rr_silk_pitch_contour_iCDF
+    · exact rr_silk_pitch_contour_10_ms_iCDF
 
 theorem runs_ltp (p : Nat) : Runs ([silk_LTP_gain_iCDF_0, silk_LTP_gain_iCDF_1, silk_LTP_gain_iCDF_2].getD p []) := by
   rw [List.getD_eq_getElem?_getD]
@@ -143,7 +154,10 @@ theorem runs_ltp (p : Nat) : Runs ([silk_LTP_gain_iCDF_0, silk_LTP_gain_iCDF_1, 
   | some v =>
     have hm := List.mem_of_getElem? hq
     simp only [List.mem_cons, List.mem_nil_iff, or_false] at hm
-    rcases hm with rfl | rfl | rfl <;> exact R _ (by simp)
+    rcases hm with rfl | rfl | rfl
+    · exact rr_silk_LTP_gain_iCDF_0
+    · exact rr_silk_LTP_gain_iCDF_1
+    · exact rr_silk_LTP_gain_iCDF_2
 
 theorem runs_lbrr (n : Nat) : Runs ([silk_LBRR_flags_2_iCDF, silk_LBRR_flags_3_iCDF].getD n []) := by
   rw [List.getD_eq_getElem?_getD]
@@ -152,17 +166,19 @@ theorem runs_lbrr (n : Nat) : Runs ([silk_LBRR_flags_2_iCDF, silk_LBRR_flags_3_i
   | some v =>
     have hm := List.mem_of_getElem? hq
     simp only [List.mem_cons, List.mem_nil_iff, or_false] at hm
-    rcases hm with rfl | rfl <;> exact R _ (by simp)
+    rcases hm with rfl | rfl
+    · exact rr_silk_LBRR_flags_2_iCDF
+    · exact rr_silk_LBRR_flags_3_iCDF
 
 theorem runs_sign (i : Nat) : Runs [silk_sign_iCDF.getD i 0, 0] := by
-  have h := rows_runs.2.2.2
+  have h := sign_bytes
   rw [List.all_eq_true] at h
   have hx : silk_sign_iCDF.getD i 0 < 256 := by
     rw [List.getD_eq_getElem?_getD]
     cases hq : silk_sign_iCDF[i]? with
     | none => simp
     | some v => simpa using h v (List.mem_of_getElem? hq)
-  refine ⟨hx, ?_, by decide⟩
+  refine ⟨hx, ?_, (by show (0 : Nat) < 256; omega)⟩
   by_cases hz : silk_sign_iCDF.getD i 0 = 0
   · exact Or.inl hz
   · exact Or.inr (by omega)
@@ -173,45 +189,60 @@ theorem symLoop_J (tbl : List Nat) (ht : Runs tbl) : ∀ (n : Nat) (c : Dec), J 
   | 0, c, hj => by unfold symLoop; exact hj
   | n + 1, c, hj => by
     unfold symLoop
+    have h1 := J_sym c hj tbl ht
+    generalize sym c tbl = r at h1 ⊢
     dsimp only
-    exact symLoop_J tbl ht n _ (J_sym c hj tbl ht)
+    exact symLoop_J tbl ht n r.2 h1
 
 theorem nlsfResOne_J (rate : Rate) (e : Nat) (c : Dec) (hj : J c) : J (nlsfResOne (nlsfCB rate) e c).2 := by
   unfold nlsfResOne
   dsimp only
   have h1 := J_sym c hj _ (Runs.drop e (runs_cb rate).2)
+  generalize sym c ((nlsfCB rate).ecIcdf.drop e) = r at h1 ⊢
+  have h2 := J_sym r.2 h1 _ rr_silk_NLSF_EXT_iCDF
+  generalize sym r.2 silk_NLSF_EXT_iCDF = x at h2 ⊢
   split
-  · exact J_sym _ h1 _ (R _ (by simp))
+  · exact h2
   · split
-    · exact J_sym _ h1 _ (R _ (by simp))
+    · exact h2
     · exact h1
 
 theorem nlsfResLoop_J (rate : Rate) : ∀ (es : List Nat) (c : Dec), J c → J (nlsfResLoop (nlsfCB rate) es c).2
   | [], c, hj => by unfold nlsfResLoop; exact hj
   | e :: es, c, hj => by
     unfold nlsfResLoop
+    have h1 := nlsfResOne_J rate e c hj
+    generalize nlsfResOne (nlsfCB rate) e c = r at h1 ⊢
     dsimp only
-    exact nlsfResLoop_J rate es _ (nlsfResOne_J rate e c hj)
+    exact nlsfResLoop_J rate es r.2 h1
 
 theorem decodeLag_J (rate : Rate) (cc ps : Nat) (pl : Int) (c : Dec) (hj : J c) : J (decodeLag rate cc ps pl c).2 := by
   unfold decodeLag
   dsimp only
   have hd : J (if cc = 2 ∧ ps = 2 then sym c silk_pitch_delta_iCDF else (0, c)).2 := by
     split
-    · exact J_sym c hj _ (R _ (by simp))
+    · exact J_sym c hj _ rr_silk_pitch_delta_iCDF
     · exact hj
-  generalize (if cc = 2 ∧ ps = 2 then sym c silk_pitch_delta_iCDF else (0, c)) = d at hd
+  generalize (if cc = 2 ∧ ps = 2 then sym c silk_pitch_delta_iCDF else (0, c)) = d at hd ⊢
+  have ha := J_sym d.2 hd _ rr_silk_pitch_lag_iCDF
+  generalize sym d.2 silk_pitch_lag_iCDF = a at ha ⊢
+  have hb := J_sym a.2 ha _ (runs_pitchLow rate)
+  generalize sym a.2 (pitchLagLowBits rate) = b at hb ⊢
   split
   · exact hd
-  · exact J_sym _ (J_sym _ hd _ (R _ (by simp))) _ (runs_pitchLow rate)
+  · exact hb
 
 theorem decodeLtp_J (nb cc : Nat) (c : Dec) (hj : J c) : J (decodeLtp nb cc c).2 := by
   unfold decodeLtp
   dsimp only
-  have h1 := J_sym c hj _ (R silk_LTP_per_index_iCDF (by simp))
-  have h2 := symLoop_J _ (runs_ltp (sym c silk_LTP_per_index_iCDF).1) nb _ h1
+  have h1 := J_sym c hj _ rr_silk_LTP_per_index_iCDF
+  generalize sym c silk_LTP_per_index_iCDF = per at h1 ⊢
+  have h2 := symLoop_J _ (runs_ltp per.1) nb _ h1
+  generalize symLoop ([silk_LTP_gain_iCDF_0, silk_LTP_gain_iCDF_1, silk_LTP_gain_iCDF_2].getD per.1 []) nb per.2 = ltp at h2 ⊢
+  have h3 := J_sym ltp.2 h2 _ rr_silk_LTPscale_iCDF
+  generalize sym ltp.2 silk_LTPscale_iCDF = sc at h3 ⊢
   split
-  · exact J_sym _ h2 _ (R _ (by simp))
+  · exact h3
   · exact h2
 
 theorem decodePitchLtp_J (rate : Rate) (nb cc ps : Nat) (pl : Int) (c : Dec) (hj : J c) :
@@ -232,26 +263,35 @@ theorem decodePitchLtp_J (rate : Rate) (nb cc ps : Nat) (pl : Int) (c : Dec) (hj
 
 theorem decodeType_J (v : Bool) (c : Dec) (hj : J c) : J (decodeType v c).2 := by
   unfold decodeType
+  dsimp only
   split
-  · exact J_sym c hj _ (R _ (by simp))
-  · exact J_sym c hj _ (R _ (by simp))
+  · exact J_sym c hj _ rr_silk_type_offset_VAD_iCDF
+  · exact J_sym c hj _ rr_silk_type_offset_no_VAD_iCDF
 
 theorem decodeGain0_J (cc sig : Nat) (c : Dec) (hj : J c) : J (decodeGain0 cc sig c).2 := by
   unfold decodeGain0
+  dsimp only
+  have h0 := J_sym c hj _ rr_silk_delta_gain_iCDF
+  generalize sym c silk_delta_gain_iCDF = g at h0 ⊢
+  have h1 := J_sym c hj _ (runs_getD rows_gain sig)
+  generalize sym c (silk_gain_iCDF.getD sig []) = a at h1 ⊢
+  have h2 := J_sym a.2 h1 _ rr_silk_uniform8_iCDF
+  generalize sym a.2 silk_uniform8_iCDF = b at h2 ⊢
   split
-  · exact J_sym c hj _ (R _ (by simp))
-  · dsimp only
-    exact J_sym _ (J_sym c hj _ (runs_getD rows_runs.1 sig)) _ (R _ (by simp))
+  · exact h0
+  · exact h2
 
 theorem decodeNlsf_J (rate : Rate) (sig : Nat) (c : Dec) (hj : J c) : J (decodeNlsf rate sig c).2 := by
   unfold decodeNlsf
   dsimp only
-  exact nlsfResLoop_J rate _ _ (J_sym c hj _ (Runs.drop _ (runs_cb rate).1))
+  have h1 := J_sym c hj _ (Runs.drop (sig / 2 * (nlsfCB rate).nVectors) (runs_cb rate).1)
+  generalize sym c ((nlsfCB rate).cb1.drop (sig / 2 * (nlsfCB rate).nVectors)) = n0 at h1 ⊢
+  exact nlsfResLoop_J rate _ _ h1
 
 theorem decodeInterp_J (nb : Nat) (c : Dec) (hj : J c) : J (decodeInterp nb c).2 := by
   unfold decodeInterp
   split
-  · exact J_sym c hj _ (R _ (by simp))
+  · exact J_sym c hj _ rr_silk_NLSF_interpolation_factor_iCDF
   · exact hj
 
 theorem decodeVoiced_J (rate : Rate) (nb sig cc ps : Nat) (pl : Int) (c : Dec) (hj : J c) :
@@ -272,7 +312,7 @@ theorem decodeIndices_J (rate : Rate) (nb : Nat) (v : Bool) (cc ps : Nat) (pl : 
   generalize decodeGain0 cc (tix / 2) c1 = y at h2
   obtain ⟨g0, c2⟩ := y
   dsimp only at h2 ⊢
-  have h3 := symLoop_J silk_delta_gain_iCDF (R _ (by simp)) (nb - 1) c2 h2
+  have h3 := symLoop_J silk_delta_gain_iCDF rr_silk_delta_gain_iCDF (nb - 1) c2 h2
   generalize symLoop silk_delta_gain_iCDF (nb - 1) c2 = y at h3
   obtain ⟨gs, c3⟩ := y
   dsimp only at h3 ⊢
@@ -288,7 +328,7 @@ theorem decodeIndices_J (rate : Rate) (nb : Nat) (v : Bool) (cc ps : Nat) (pl : 
   generalize decodeVoiced rate nb (tix / 2) cc ps pl c5 = y at h6
   obtain ⟨⟨lag, ct, per, ltp, sc⟩, c6⟩ := y
   dsimp only at h6 ⊢
-  have h7 := J_sym c6 h6 _ (R silk_uniform4_iCDF (by simp))
+  have h7 := J_sym c6 h6 _ (rr_silk_uniform4_iCDF)
   generalize sym c6 silk_uniform4_iCDF = y at h7
   obtain ⟨seed, c7⟩ := y
   exact h7
@@ -300,7 +340,7 @@ theorem lsbCountLoop_J : ∀ (k : Nat) (c : Dec) (n sp : Nat), J c → J (lsbCou
   | k + 1, c, n, sp, hj => by
     unfold lsbCountLoop
     split
-    · have h1 := J_sym c hj _ (Runs.drop (if n + 1 = 10 then 1 else 0) (runs_getD rows_runs.2.2.1 9))
+    · have h1 := J_sym c hj _ (Runs.drop (if n + 1 = 10 then 1 else 0) (runs_getD rows_ppb 9))
       generalize sym c ((silk_pulses_per_block_iCDF.getD 9 []).drop (if n + 1 = 10 then 1 else 0)) = y at h1
       obtain ⟨sp', c1⟩ := y
       exact lsbCountLoop_J k c1 (n + 1) sp' h1
@@ -335,22 +375,22 @@ theorem decodeSplit_J (tbl : List Nat) (ht : Runs tbl) (c : Dec) (p : Nat) (hj :
 
 theorem shellQuarter_J (c : Dec) (p : Nat) (hj : J c) : J (shellQuarter c p).2 := by
   unfold shellQuarter
-  have h1 := decodeSplit_J _ (R silk_shell_code_table1 (by simp)) c p hj
+  have h1 := decodeSplit_J _ (rr_silk_shell_code_table1) c p hj
   generalize decodeSplit c p silk_shell_code_table1 = y at h1
   obtain ⟨a1, a2, c1⟩ := y
   dsimp only at h1 ⊢
-  have h2 := decodeSplit_J _ (R silk_shell_code_table0 (by simp)) c1 a1 h1
+  have h2 := decodeSplit_J _ (rr_silk_shell_code_table0) c1 a1 h1
   generalize decodeSplit c1 a1 silk_shell_code_table0 = y at h2
   obtain ⟨b1, b2, c2⟩ := y
   dsimp only at h2 ⊢
-  have h3 := decodeSplit_J _ (R silk_shell_code_table0 (by simp)) c2 a2 h2
+  have h3 := decodeSplit_J _ (rr_silk_shell_code_table0) c2 a2 h2
   generalize decodeSplit c2 a2 silk_shell_code_table0 = y at h3
   obtain ⟨d1, d2, c3⟩ := y
   exact h3
 
 theorem shellHalf_J (c : Dec) (p : Nat) (hj : J c) : J (shellHalf c p).2 := by
   unfold shellHalf
-  have h1 := decodeSplit_J _ (R silk_shell_code_table2 (by simp)) c p hj
+  have h1 := decodeSplit_J _ (rr_silk_shell_code_table2) c p hj
   generalize decodeSplit c p silk_shell_code_table2 = y at h1
   obtain ⟨a1, a2, c1⟩ := y
   dsimp only at h1 ⊢
@@ -365,7 +405,7 @@ theorem shellHalf_J (c : Dec) (p : Nat) (hj : J c) : J (shellHalf c p).2 := by
 
 theorem shellDecoder_J (c : Dec) (p : Nat) (hj : J c) : J (shellDecoder c p).2 := by
   unfold shellDecoder
-  have h1 := decodeSplit_J _ (R silk_shell_code_table3 (by simp)) c p hj
+  have h1 := decodeSplit_J _ (rr_silk_shell_code_table3) c p hj
   generalize decodeSplit c p silk_shell_code_table3 = y at h1
   obtain ⟨a1, a2, c1⟩ := y
   dsimp only at h1 ⊢
@@ -401,7 +441,7 @@ theorem lsbBits_J : ∀ (n q : Nat) (c : Dec), J c → J (lsbBits n q c).2
   | 0, q, c, hj => by unfold lsbBits; exact hj
   | n + 1, q, c, hj => by
     unfold lsbBits
-    have h1 := J_sym c hj _ (R silk_lsb_iCDF (by simp))
+    have h1 := J_sym c hj _ (rr_silk_lsb_iCDF)
     generalize sym c silk_lsb_iCDF = y at h1
     obtain ⟨b, c1⟩ := y
     exact lsbBits_J n (2 * q + b) c1 h1
@@ -492,11 +532,11 @@ theorem signLoop_J (base : Nat) : ∀ (n : Nat) (bs : List (List Nat)) (ps : Lis
 
 theorem decodePulses_J (sig qoff fl : Nat) (c : Dec) (hj : J c) : J (decodePulses sig qoff fl c).2 := by
   unfold decodePulses
-  have h1 := J_sym c hj _ (runs_getD rows_runs.2.1 (sig / 2))
+  have h1 := J_sym c hj _ (runs_getD rows_rate (sig / 2))
   generalize sym c (silk_rate_levels_iCDF.getD (sig / 2) []) = y at h1
   obtain ⟨rl, c1⟩ := y
   dsimp only at h1 ⊢
-  have h2 := sumPulsesLoop_J _ (runs_getD rows_runs.2.2.1 rl) (shellBlocks fl) c1 h1
+  have h2 := sumPulsesLoop_J _ (runs_getD rows_ppb rl) (shellBlocks fl) c1 h1
   generalize sumPulsesLoop (silk_pulses_per_block_iCDF.getD rl []) (shellBlocks fl) c1 = y at h2
   obtain ⟨sps, ns, c2⟩ := y
   dsimp only at h2 ⊢
